@@ -43,129 +43,118 @@ Proof.
   rewrite firstn_app, firstn_all, Nat.sub_diag. simpl. apply app_nil_r.
 Qed.
 
-Lemma space_not_t c : is_space c = true -> Ascii.eqb "t"%char c = false.
+Lemma drop_while_mid f q d t : f d = false -> drop_while f (q ++ d :: t) = drop_while f q ++ d :: t.
+Proof.
+  intros H. induction q as [|c q IH]; cbn [app drop_while].
+  - now rewrite H.
+  - destruct (f c); [exact IH | reflexivity].
+Qed.
+
+Lemma trim_right_mid f l d p : f d = false ->
+  trim_right_f f (l ++ d :: p) = l ++ d :: trim_right_f f p.
+Proof.
+  intros H. unfold trim_right_f.
+  assert (R : rev (l ++ d :: p) = rev p ++ d :: rev l).
+  { rewrite rev_app_distr. cbn [rev]. now rewrite <- app_assoc. }
+  rewrite R, (drop_while_mid f (rev p) d (rev l) H).
+  rewrite rev_app_distr. cbn [rev]. rewrite rev_involutive, <- app_assoc. reflexivity.
+Qed.
+
+(** TrimSpace of  c l d p  with c, d non-blank: only the tail p is trimmed *)
+Lemma trim_space_shape c l d p : is_space c = false -> is_space d = false ->
+  trim_space (c :: l ++ d :: p) = c :: l ++ d :: trim_right_f is_space p.
+Proof.
+  intros Hc Hd. unfold trim_space, trim_f, trim_left_f.
+  rewrite drop_while_stop by exact Hc.
+  exact (trim_right_mid is_space (c :: l) d p Hd).
+Qed.
+
+Lemma trim_space_lead_shape sp c l d p :
+  forallb is_space sp = true -> is_space c = false -> is_space d = false ->
+  trim_space (sp ++ c :: l ++ d :: p) = c :: l ++ d :: trim_right_f is_space p.
+Proof.
+  intros Hs Hc Hd. pose proof (trim_space_shape c l d p Hc Hd) as F.
+  unfold trim_space, trim_f, trim_left_f in *.
+  rewrite drop_while_all by exact Hs. exact F.
+Qed.
+
+Lemma index_single x c t : ~ In c x -> index (x ++ c :: t) [c] = Some (length x).
+Proof.
+  induction x as [|e x IH]; intros H.
+  - cbn [app index has_prefix]. now rewrite Ascii.eqb_refl.
+  - cbn [app]. unfold index; fold index. cbn [has_prefix].
+    assert (N : Ascii.eqb c e = false).
+    { apply Ascii.eqb_neq. intros ->. apply H. now left. }
+    rewrite N. cbn [andb]. rewrite IH by (intros K; apply H; now right). reflexivity.
+Qed.
+
+Lemma firstn_mid {A} (x : list A) c t : firstn (S (length x)) (x ++ c :: t) = x ++ [c].
+Proof. induction x as [|e x IH]; cbn [length app]; [reflexivity | rewrite firstn_cons; now rewrite IH]. Qed.
+
+Lemma not_contains_not_In s c : contains_byte s c = false -> ~ In c s.
+Proof.
+  unfold contains_byte. intros H K.
+  assert (X : existsb (Ascii.eqb c) s = true).
+  { apply existsb_exists. exists c. split; [exact K | apply Ascii.eqb_refl]. }
+  congruence.
+Qed.
+
+Lemma upper_T_not_space a : upper_c a = "T"%char -> is_space a = false.
 Proof.
   intros H.
-  assert (K : negb (is_space c) || negb (Ascii.eqb "t"%char c) = true).
-  { revert c H. intros c _. revert c.
-    ascii_sweep (fun c => negb (is_space c) || negb (Ascii.eqb "t"%char c)). }
-  rewrite H in K. simpl in K. now apply negb_true_iff in K.
+  assert (K : negb (Ascii.eqb (upper_c a) "T"%char) || negb (is_space a) = true).
+  { revert a H. intros a _. revert a.
+    ascii_sweep (fun a => negb (Ascii.eqb (upper_c a) "T"%char) || negb (is_space a)). }
+  rewrite H in K. cbn in K. now apply negb_true_iff in K.
 Qed.
 
-Lemma no_to_prefix sp x : forallb is_space sp = true ->
-  has_prefix (sp ++ "<"%char :: x) (S_ "to:") = false.
+(** Every legal RCPT argument  TO:<path>[ SP parameters]  (keyword in any
+    case, optional blanks before the bracket) yields exactly the path. *)
+Lemma parse_rcpt_to_shape args addr : rcpt_shape args addr -> parse_rcpt_to args = Some addr.
 Proof.
-  destruct sp as [|c sp]; [reflexivity|].
-  intros H. cbn [forallb] in H. apply andb_true_iff in H as [Hc _].
-  cbn [has_prefix app S_ list_ascii_of_string]. now rewrite (space_not_t c Hc).
-Qed.
-
-(** RCPT TO:<addr> (prefix TO: or to:, optional blanks, no parameters) yields addr,
-    for every byte string addr *)
-Lemma parse_rcpt_to_bracketed pre sp addr :
-  pre = S_ "TO:" \/ pre = S_ "to:" -> forallb is_space sp = true ->
-  parse_rcpt_to (pre ++ sp ++ "<"%char :: addr ++ [">"%char]) = Some addr.
-Proof.
-  intros Hpre Hsp. unfold parse_rcpt_to.
-  set (body := sp ++ "<"%char :: addr ++ [">"%char]).
-  assert (Hbody : body = (sp ++ "<"%char :: addr) ++ [">"%char]).
-  { unfold body. rewrite <- app_assoc. reflexivity. }
-  assert (T2 : trim_space body = "<"%char :: addr ++ [">"%char]).
-  { unfold body. apply trim_space_lead; [exact Hsp | reflexivity | reflexivity]. }
-  assert (T1 : forall a b, is_space a = false ->
-               trim_space (a :: b :: ":"%char :: body) = a :: b :: ":"%char :: body).
-  { intros a b Ha. rewrite Hbody.
-    apply (trim_space_fixed a (b :: ":"%char :: sp ++ "<"%char :: addr) ">"%char); [exact Ha | reflexivity]. }
-  assert (Fin : trim_suffix (trim_prefix (trim_space body) (S_ "<")) (S_ ">") = addr).
-  { rewrite T2. unfold trim_prefix.
-    cbn [has_prefix S_ list_ascii_of_string length skipn].
-    rewrite Ascii.eqb_refl. cbn [andb]. apply trim_suffix_last. }
-  destruct Hpre as [-> | ->].
-  - change (S_ "TO:" ++ body) with ("T"%char :: "O"%char :: ":"%char :: body).
-    rewrite T1 by reflexivity.
-    change (has_prefix (to_upper ("T"%char :: "O"%char :: ":"%char :: body)) (S_ "TO:")) with true.
-    cbn [negb].
-    change (trim_prefix ("T"%char :: "O"%char :: ":"%char :: body) (S_ "TO:")) with body.
-    unfold trim_prefix at 2. unfold body at 1. rewrite no_to_prefix by exact Hsp.
-    fold body. now rewrite Fin.
-  - change (S_ "to:" ++ body) with ("t"%char :: "o"%char :: ":"%char :: body).
-    rewrite T1 by reflexivity.
-    change (has_prefix (to_upper ("t"%char :: "o"%char :: ":"%char :: body)) (S_ "TO:")) with true.
-    cbn [negb].
-    change (trim_prefix ("t"%char :: "o"%char :: ":"%char :: body) (S_ "TO:"))
-      with ("t"%char :: "o"%char :: ":"%char :: body).
-    change (trim_prefix ("t"%char :: "o"%char :: ":"%char :: body) (S_ "to:")) with body.
-    now rewrite Fin.
-Qed.
-
-Lemma trim_suffix_other x c : Ascii.eqb ">"%char c = false -> trim_suffix (x ++ [c]) (S_ ">") = x ++ [c].
-Proof.
-  intros H. unfold trim_suffix, has_suffix. rewrite rev_app_distr.
-  cbn [rev app S_ list_ascii_of_string has_prefix]. now rewrite H.
-Qed.
-
-(** ESMTP parameters after the path stay in the "address": for every addr and
-    every parameter text ending in a non-blank byte other than ">" *)
-Lemma parse_rcpt_to_params addr p c :
-  is_space c = false -> Ascii.eqb ">"%char c = false ->
-  parse_rcpt_to (S_ "TO:<" ++ addr ++ S_ "> " ++ p ++ [c]) = Some (addr ++ S_ "> " ++ p ++ [c]).
-Proof.
-  intros Hc Hgt. unfold parse_rcpt_to.
-  set (tail := addr ++ S_ "> " ++ p ++ [c]).
-  assert (Htail : tail = (addr ++ S_ "> " ++ p) ++ [c]).
-  { unfold tail. now rewrite !app_assoc. }
-  change (S_ "TO:<" ++ tail) with ("T"%char :: "O"%char :: ":"%char :: "<"%char :: tail).
-  assert (T1 : trim_space ("T"%char :: "O"%char :: ":"%char :: "<"%char :: tail)
-               = "T"%char :: "O"%char :: ":"%char :: "<"%char :: tail).
-  { rewrite Htail.
-    apply (trim_space_fixed "T"%char ("O"%char :: ":"%char :: "<"%char :: addr ++ S_ "> " ++ p) c); [reflexivity | exact Hc]. }
-  assert (T2 : trim_space ("<"%char :: tail) = "<"%char :: tail).
-  { rewrite Htail. apply (trim_space_fixed "<"%char (addr ++ S_ "> " ++ p) c); [reflexivity | exact Hc]. }
-  rewrite T1.
-  change (has_prefix (to_upper ("T"%char :: "O"%char :: ":"%char :: "<"%char :: tail)) (S_ "TO:")) with true.
-  cbn [negb].
-  change (trim_prefix ("T"%char :: "O"%char :: ":"%char :: "<"%char :: tail) (S_ "TO:")) with ("<"%char :: tail).
-  change (trim_prefix ("<"%char :: tail) (S_ "to:")) with ("<"%char :: tail).
-  rewrite T2.
-  change (trim_prefix ("<"%char :: tail) (S_ "<")) with tail.
-  rewrite Htail. now rewrite trim_suffix_other.
-Qed.
-
-(** a mixed-case "To:" passes the prefix test but is never removed *)
-Lemma parse_rcpt_to_mixed_case addr :
-  parse_rcpt_to (S_ "To:<" ++ addr ++ S_ ">") = Some (S_ "To:<" ++ addr).
-Proof.
+  intros H. destruct H as [pre sp addr params Hpre Hsp Haddr Hparams].
+  unfold equal_fold in Hpre. apply str_eqb_eq in Hpre.
+  destruct pre as [|a [|b [|c [|x pre]]]]; try discriminate.
+  cbn in Hpre. injection Hpre as Ha Hb Hc.
+  pose proof (upper_T_not_space a Ha) as Sa.
   unfold parse_rcpt_to.
-  change (S_ "To:<" ++ addr ++ S_ ">") with ("T"%char :: ("o"%char :: ":"%char :: "<"%char :: addr) ++ [">"%char]).
-  rewrite trim_space_fixed by reflexivity.
-  change (has_prefix (to_upper ("T"%char :: ("o"%char :: ":"%char :: "<"%char :: addr) ++ [">"%char])) (S_ "TO:")) with true.
-  cbn [negb].
-  change (trim_prefix ("T"%char :: ("o"%char :: ":"%char :: "<"%char :: addr) ++ [">"%char]) (S_ "TO:"))
-    with ("T"%char :: ("o"%char :: ":"%char :: "<"%char :: addr) ++ [">"%char]).
-  change (trim_prefix ("T"%char :: ("o"%char :: ":"%char :: "<"%char :: addr) ++ [">"%char]) (S_ "to:"))
-    with ("T"%char :: ("o"%char :: ":"%char :: "<"%char :: addr) ++ [">"%char]).
-  rewrite trim_space_fixed by reflexivity.
-  change (trim_prefix ("T"%char :: ("o"%char :: ":"%char :: "<"%char :: addr) ++ [">"%char]) (S_ "<"))
-    with ("T"%char :: ("o"%char :: ":"%char :: "<"%char :: addr) ++ [">"%char]).
-  change ("T"%char :: ("o"%char :: ":"%char :: "<"%char :: addr) ++ [">"%char])
-    with ((S_ "To:<" ++ addr) ++ [">"%char]).
-  now rewrite trim_suffix_last.
+  set (body := sp ++ "<"%char :: addr ++ ">"%char :: params).
+  assert (T1 : trim_space ([a; b; c] ++ body)
+               = a :: (b :: c :: sp ++ "<"%char :: addr) ++ ">"%char :: trim_right_f is_space params).
+  { replace ([a; b; c] ++ body) with (a :: (b :: c :: sp ++ "<"%char :: addr) ++ ">"%char :: params).
+    - apply trim_space_shape; [exact Sa | reflexivity].
+    - unfold body. cbn [app]. now rewrite <- app_assoc. }
+  rewrite T1. set (t := trim_right_f is_space params).
+  cbn [length app Nat.ltb Nat.leb firstn skipn orb].
+  assert (EF : equal_fold [a; b; c] (S_ "TO:") = true).
+  { unfold equal_fold. cbn. now rewrite Ha, Hb, Hc. }
+  rewrite EF. cbn [negb].
+  assert (T2 : trim_space ((sp ++ "<"%char :: addr) ++ ">"%char :: t)
+               = "<"%char :: addr ++ ">"%char :: trim_right_f is_space t).
+  { rewrite <- app_assoc. cbn [app]. apply trim_space_lead_shape; [exact Hsp | reflexivity | reflexivity]. }
+  rewrite T2. set (t' := trim_right_f is_space t).
+  cbn [has_prefix S_ list_ascii_of_string]. rewrite Ascii.eqb_refl. cbn [andb].
+  assert (IX : index ("<"%char :: addr ++ ">"%char :: t') [">"%char] = Some (S (length addr))).
+  { change ("<"%char :: addr ++ ">"%char :: t') with (("<"%char :: addr) ++ ">"%char :: t').
+    apply (index_single ("<"%char :: addr) ">"%char t').
+    intros [K|K]; [discriminate | exact (not_contains_not_In addr _ Haddr K)]. }
+  rewrite IX.
+  change ("<"%char :: addr ++ ">"%char :: t') with (("<"%char :: addr) ++ ">"%char :: t').
+  change (S (S (length addr))) with (S (length ("<"%char :: addr))).
+  rewrite firstn_mid.
+  unfold trim_prefix. cbn [app has_prefix S_ list_ascii_of_string length skipn].
+  rewrite Ascii.eqb_refl. cbn [andb]. f_equal. apply trim_suffix_last.
 Qed.
 
-(** the two shapes are legal RCPT arguments whose path is [addr] *)
-Lemma refuted_rcpt_params :
-  exists args addr, rcpt_shape args addr /\ parse_rcpt_to args <> Some addr.
-Proof.
-  exists (S_ "TO:<a@b> NOTIFY=NEVER"), (S_ "a@b"). split.
-  - apply (RS (S_ "TO:") [] (S_ "a@b") (S_ " NOTIFY=NEVER")); try reflexivity.
-    right. now exists (S_ "NOTIFY=NEVER").
-  - vm_compute. discriminate.
-Qed.
-
-Lemma refuted_rcpt_prefix_case :
-  exists args addr, rcpt_shape args addr /\ parse_rcpt_to args <> Some addr.
-Proof.
-  exists (S_ "To:<a@b>"), (S_ "a@b"). split.
-  - apply (RS (S_ "To:") [] (S_ "a@b") []); try reflexivity. now left.
-  - vm_compute. discriminate.
-Qed.
+(** regression: the parser before the fixes C17-1 / C17-2 (TrimPrefix "TO:" and
+    "to:" only, ">" removed only from the end) *)
+Definition old_parse_rcpt_to (args : str) : option str :=
+  let args := trim_space args in
+  if negb (has_prefix (to_upper args) (S_ "TO:")) then None
+  else
+    let args := trim_prefix args (S_ "TO:") in
+    let args := trim_prefix args (S_ "to:") in
+    let args := trim_space args in
+    let args := trim_prefix args (S_ "<") in
+    let args := trim_suffix args (S_ ">") in
+    Some args.
